@@ -1,6 +1,7 @@
 import Operon.Lemmas.C18
 import Operon.Lemmas.C18Hist
 import Operon.Lemmas.C18Live
+import Operon.Lemmas.C18Early
 /-!
 # C18 — healing and tool loops stop within their budgets against any generator
 
@@ -206,6 +207,23 @@ theorem c18_swarm_early_exit_only_on_collapse (code : SwarmCode ω) (cfg : Swarm
       (outs sp.steps).length ≥ 3 ∧
       code.low (code.distinct (lastThree (outs sp.steps))) (lastThree (outs sp.steps)).length = true :=
   fun sp h => (superviseLoop_spawn_facts code cfg adv task _ _ _ _ _ sp h).early
+
+/-- No worker is given up prematurely: after every step of a spawn except its last, the entropy test (`Collapsed`:
+    at least three outputs so far and `low` on the window of the last three) had not fired on the outputs so far
+    — together with `c18_swarm_early_exit_only_on_collapse` and the marker clauses: a worker runs until its first
+    marker output, its first collapsed window, its step limit, or an exception, whichever comes first. -/
+theorem c18_swarm_no_premature_abandon (code : SwarmCode ω) (cfg : SwarmCfg) (adv : SwarmAdv σ W ω η ι τ)
+    (task : τ) (hints0 : η) (sw : SwarmSt ι η) (s : σ) :
+    ∀ sp ∈ (supervise code cfg adv task hints0 sw s).spawns, ∀ j, j + 1 < sp.steps.length →
+      ¬ Collapsed code (outs (sp.steps.take (j + 1))) := by
+  intro sp hsp j hj
+  rcases superviseLoop_spawn_is_run code cfg adv task _ _ _ _ _ sp hsp with h | ⟨w, s1, h⟩
+  · rw [h] at hj; simp at hj
+  · rw [h] at hj ⊢
+    have hl : lastThree ([] : List ω) = [] := rfl
+    have := runWorker_no_premature code adv w task cfg.maxSteps.toNat [] s1 j (by rw [hl]; exact hj)
+    rw [hl] at this
+    simpa using this
 
 /-- `supervise` never runs out of the fuel the model gives it (the value `none` is unreachable), and an
     exception leaves it only from the last spawn (factory, a step, or the summarizer raised). -/
@@ -649,6 +667,16 @@ example : ((supervise ⟨fun o => o == 99, fun l => l.eraseDups.length, fun u _ 
       (⟨fun i n _ => (i, .ok n), fun i _ _ => (i, .ok 5), fun i _ => (i, .ok 0), fun w => w⟩ :
         SwarmAdv Nat Nat Nat Nat Nat Unit) () 0 ⟨0, [], []⟩ 0).spawns.map
       (fun sp => (sp.steps.length, sp.summ.isSome))) = [(3, true), (3, true)] := by
+  decide
+
+
+/-- outputs 5, 6, 7, 7, 7 under an entropy test that fires on fewer than two distinct outputs: the worker is kept for
+    four steps and given up at the fifth (the window 7, 7, 7) — the hypothesis `j + 1 < steps.length` of
+    `c18_swarm_no_premature_abandon` is met for j = 0 … 3 -/
+example : ((supervise ⟨fun o => o == 99, fun l => l.eraseDups.length, fun u _ => u < 2⟩ ⟨0, 9⟩
+      (⟨fun i n _ => (i, .ok n), fun i _ _ => (i + 1, .ok (if i < 2 then 5 + i else 7)), fun i _ => (i, .ok 0), fun w => w⟩ :
+        SwarmAdv Nat Nat Nat Nat Nat Unit) () 0 ⟨0, [], []⟩ 0).spawns.map
+      (fun sp => sp.steps.length)) = [5] := by
   decide
 
 /-- the string reading of the marker: "all done" succeeds, "DON E" does not -/
